@@ -32,4 +32,8 @@ class Ref(Expression):
         out += (STATUS, RESULT, POS) << Yield((CALL, func, POS))
 
     def argumentize(self, out, flags):
-        return Code(self.resolved)
+        # A rule that is passed as an argument is late-bound, too.
+        if flags.uses_context and not self.is_local and not self.is_super:
+            return Code(f'_ctx.{self.resolved}')
+        else:
+            return Code(self.resolved)
